@@ -72,7 +72,7 @@ def run(prop_id, tier, seed, report):
                     plans.append((kind, path, tgt, nth, persistent))
             if tier == "quick" and len(plans) > 14:
                 # always keep the sites of the recorded known findings (persistent failures on reference files)
-                keep = [p_ for p_ in plans if p_[4] and p_[1].startswith("refs/") and p_[0] in ("openRead", "openWrite", "flock")]
+                keep = [p_ for p_ in plans if p_[4] and p_[1].startswith("refs/") and p_[0] in ("openRead", "openWrite", "flock", "rename")]
                 rest = [p_ for p_ in plans if p_ not in keep]
                 plans = keep + rng.sample(rest, min(len(rest), max(0, 14 - len(keep))))
             for (kind, path, tgt, nth, persistent) in plans:
@@ -150,6 +150,27 @@ def run(prop_id, tier, seed, report):
                                 problems["previous document version not intact"] = (m_before, m_after)
                     if prop_id == "C08":
                         problems = {k: v for k, v in problems.items() if k == "identifier left locked"}
+                        # every identifier that was involved can be operated on again: other calls on the same content
+                        # and pid must return (watched thread) and leave nothing locked
+                        if rlocks == EMPTY_LOCKS and getattr(sc, "data_tok", None) is not None:
+                            tok_ = sc.data_tok
+                            om_ = trio.real.run(store_object(None, ("ok", tok_, "str", 0)))
+                            fu = []
+                            if om_.startswith("ok"):
+                                from . import c19 as _c19
+                                omv = _c19.parse_om(om_)
+                                if omv is not None:
+                                    fu.append(delete_if_invalid_object(omv, "0" * 32, "md5", None))
+                            fu += [store_object("follow-up", ("ok", tok_, "str", 0))]
+                            if sc.pid is not None:
+                                fu.append(delete_object(sc.pid))
+                            for fc in fu:
+                                fr = trio.run_real(fc)
+                                if fr == "err CallDidNotReturn":
+                                    problems["a later call on the same identifiers does not return"] = ("returns", repr(fc)[:80])
+                                    break
+                            if "a later call on the same identifiers does not return" not in problems and trio.real.locks() != EMPTY_LOCKS:
+                                problems["identifier left locked"] = (EMPTY_LOCKS, trio.real.locks())
                         if retry is not None and retry.startswith("err StoreObjectForPidAlreadyInProgress"):
                             problems["follow-up call blocked"] = ("completes", retry)
                     if problems:
